@@ -409,11 +409,18 @@ func init() {
 		}
 		return &Built{Msgs: []sdk.Msg{banktypes.NewMsgSend(gmustAddr(w, t.S), gmustAddr(w, t.A.Str("to")), sdk.NewCoins(sdk.NewCoin(denom, t.A.SdkInt("amount"))))}}, nil
 	})
+	// "valof" names the validator by its operator's key instead of by genesis index
+	valOf := func(w *World, t *Tx) string {
+		if t.A.Has("valof") {
+			return sdk.ValAddress(gmustAddr(w, t.A.Str("valof"))).String()
+		}
+		return valAddr(w, t.A.Int("val"))
+	}
 	RegisterTx("g_delegate", func(w *World, t *Tx) (*Built, error) {
-		return &Built{Msgs: []sdk.Msg{stakingtypes.NewMsgDelegate(gmustAddr(w, t.S).String(), valAddr(w, t.A.Int("val")), fxc(t.A.SdkInt("amount")))}}, nil
+		return &Built{Msgs: []sdk.Msg{stakingtypes.NewMsgDelegate(gmustAddr(w, t.S).String(), valOf(w, t), fxc(t.A.SdkInt("amount")))}}, nil
 	})
 	RegisterTx("g_undelegate", func(w *World, t *Tx) (*Built, error) {
-		return &Built{Msgs: []sdk.Msg{stakingtypes.NewMsgUndelegate(gmustAddr(w, t.S).String(), valAddr(w, t.A.Int("val")), fxc(t.A.SdkInt("amount")))}}, nil
+		return &Built{Msgs: []sdk.Msg{stakingtypes.NewMsgUndelegate(gmustAddr(w, t.S).String(), valOf(w, t), fxc(t.A.SdkInt("amount")))}}, nil
 	})
 	RegisterTx("g_redelegate", func(w *World, t *Tx) (*Built, error) {
 		return &Built{Msgs: []sdk.Msg{stakingtypes.NewMsgBeginRedelegate(gmustAddr(w, t.S).String(), valAddr(w, t.A.Int("val")), valAddr(w, t.A.Int("dst")), fxc(t.A.SdkInt("amount")))}}, nil
@@ -498,7 +505,10 @@ func init() {
 	})
 	// g_create_validator: the signer becomes a validator operator (consensus key ConsKey(1000+idx))
 	RegisterTx("g_create_validator", func(w *World, t *Tx) (*Built, error) {
-		_, idx := ParseKeyName(t.S)
+		role, idx := ParseKeyName(t.S)
+		if role != "leg" {
+			idx += 1000 // consensus keys of operators with other key roles stay apart from the legacy ones
+		}
 		pk, err := cryptocodec.FromCmtPubKeyInterface(ConsKey(1000 + idx).PubKey())
 		if err != nil {
 			return nil, err
